@@ -331,6 +331,16 @@ def main(argv):
     return 0
 
 
+def _level(prop, proved):
+    """evidence level = the category claimed in MANIFEST.json (lib/claims.py), never higher than what ran: without a single proof obligation it is model_checking"""
+    try:
+        import claims
+        cat = claims.CLAIMS.get(prop, {}).get('category') or 'proof'
+    except Exception:
+        cat = 'proof'
+    return cat if sum(r['obligations'] for r in proved) > 0 else 'model_checking'
+
+
 def write_evidence(prop, tier, seed, units, results, violations, known_hit, wall, extra=None):
     proved = [r for r in results if r['kind'] != 'bounded']
     bounded = [r for r in results if r['kind'] == 'bounded']
@@ -353,7 +363,7 @@ def write_evidence(prop, tier, seed, units, results, violations, known_hit, wall
     cmd = next((r['cmd'] for r in results if r['cmd']), 'cbmc')
     known_n = sum(1 for _ in known_hit)
     ev = dict(
-        property_id=prop, tier=tier, seed=seed, level='proof' if sum(r['obligations'] for r in proved) > 0 else 'model_checking',
+        property_id=prop, tier=tier, seed=seed, level=_level(prop, proved),
         coverage=dict(
             obligations=sum(r['obligations'] for r in proved),
             discharged=sum(r['discharged'] for r in proved),
